@@ -11,7 +11,12 @@ COMMON_NOTE = ('Trusted base: nightly rustc 1.97 (MIR construction, drop elabora
                'Waker, payload Clone/Drop, Clock and user RingBufs are opaque user code; rules/specs.py holds the '
                'hand-confirmed typestate table. A transition is a state-layer method or any function that mutates lock-'
                'protected state directly (judged the same way); an operation that mutates under two separate lock '
-               'acquisitions is reported; field vocabulary is verified first (a rename fails closed, exit 2). ')
+               'acquisitions is reported; field vocabulary is verified first (a rename fails closed, exit 2). What is '
+               'NOT vocabulary, and is seen through by the engine: private helper functions / traits / modules / field '
+               'groups / argument bundles, private outcome enums (converted to the public Poll shape the way the crate '
+               'converts them), generic helper instances, associated constants, parameter and local names (74 independent '
+               'behaviour-preserving refactorings are part of the selftest and must stay silent). Control-flow paths '
+               'are enumerated with loops unrolled twice (quick) / three times (thorough); paths beyond are not. ')
 
 CHECKS = {
     'C01': dict(
